@@ -107,6 +107,11 @@ pub struct C08Case {
     pub depth: u8,
     pub earlier: u8,
     pub dstf: u8,
+    /// other instructions in the same program: 0 none, 1 `ldabsb` after the call, 2 `ldabsb` in
+    /// dead code, 3 `ldindb` before, 4 mul/div/mod before, 5 stack store + atomic add + lddw before
+    pub ctx: u8,
+    /// compile, bind the id to another helper, compile again: the call must reach the new one
+    pub rebind: bool,
 }
 
 const SENT6: u64 = 0x6666_0000_0000_6666;
@@ -133,6 +138,25 @@ fn c08_program(c: &C08Case, args: &[u64; 5]) -> Vec<I> {
             body.push(I::new(0x85, 0, 0, 0, eid as i32));
         }
     }
+    match c.ctx {
+        3 => {
+            body.push(isa::mov64i(2, 1));
+            body.push(I::new(0x50, 0, 2, 0, 0));
+        }
+        4 => {
+            body.push(isa::mov64i(0, 7));
+            body.push(I::new(0x27, 0, 0, 0, 3));
+            body.push(I::new(0x37, 0, 0, 0, 2));
+            body.push(I::new(0x97, 0, 0, 0, 5));
+        }
+        5 => {
+            body.push(isa::stdw(10, -8, 1));
+            body.push(isa::mov64i(2, 1));
+            body.push(I::new(0xdb, 10, 2, -8, 0));
+            body.extend(isa::lddw(3, 0x1122334455667788));
+        }
+        _ => {}
+    }
     for (k, a) in args.iter().enumerate() {
         body.extend(isa::lddw(k as u8 + 1, *a));
     }
@@ -143,10 +167,15 @@ fn c08_program(c: &C08Case, args: &[u64; 5]) -> Vec<I> {
     body.push(isa::sub64r(8, 10));
     body.push(isa::stxdw(9, D_R10, 8));
     body.push(isa::stw(9, D_MARK, 0x600d));
+    if c.ctx == 1 {
+        body.push(I::new(0x30, 0, 0, 0, 0));
+    }
+    let dead: Vec<I> = if c.ctx == 2 { vec![I::new(0x30, 0, 0, 0, 0), isa::EXIT] } else { vec![] };
     if c.depth == 0 {
         main.extend(body);
         main.push(isa::mov64i(0, 0));
         main.push(isa::EXIT);
+        main.extend(dead);
         return main;
     }
     // main -> f1 -> ... -> f_depth (which contains the body); functions laid out after main
@@ -160,6 +189,7 @@ fn c08_program(c: &C08Case, args: &[u64; 5]) -> Vec<I> {
     }
     main.extend(body);
     main.push(isa::EXIT);
+    main.extend(dead);
     main
 }
 
@@ -177,9 +207,9 @@ fn c08_arg_tuples() -> Vec<[u64; 5]> {
 }
 
 fn c08_group(s: &mut Sink, eng: Eng, c: &C08Case) {
-    let rp = json!({"kind":"helper-call","eng":eng.name(),"id":c.id,"regset":c.regset,"depth":c.depth,"earlier":c.earlier,"dstf":c.dstf});
-    let class = format!("helper-call@depth{}", c.depth);
-    let registered: Option<usize> = REG_IDS.iter().position(|x| *x == c.id).filter(|i| c.regset & (1 << i) != 0);
+    let rp = json!({"kind":"helper-call","eng":eng.name(),"id":c.id,"regset":c.regset,"depth":c.depth,"earlier":c.earlier,"dstf":c.dstf,"ctx":c.ctx,"rebind":c.rebind});
+    let class = format!("helper-call@depth{}{}{}", c.depth, if c.ctx > 0 { format!("+ctx{}", c.ctx) } else { String::new() }, if c.rebind { "+rebind" } else { "" });
+    let mut registered: Option<usize> = REG_IDS.iter().position(|x| *x == c.id).filter(|i| c.regset & (1 << i) != 0);
     let tuples = c08_arg_tuples();
     let pkt = Buf::new(64, 0);
     for args in &tuples {
@@ -229,6 +259,20 @@ fn c08_group(s: &mut Sink, eng: Eng, c: &C08Case) {
                 continue; // do not execute it
             }
             (Ok(Ok(())), _, _) => {}
+        }
+        if c.rebind {
+            if let Some(w) = REG_IDS.iter().position(|x| *x == c.id).filter(|i| c.regset & (1 << i) != 0) {
+                let neww = (w + 1) % 4;
+                vmx.register_helper(c.id, stub(neww)).unwrap();
+                registered = Some(neww);
+                match catch(|| vmx.compile(eng)) {
+                    Ok(Ok(())) => {}
+                    Ok(Err(e)) | Err(e) => {
+                        s.violation(&format!("{}/{class}/recompile-failed", eng.name()), e, rp.clone());
+                        return;
+                    }
+                }
+            }
         }
         pkt.fill(&[0u8; 64]);
         log_reset();
@@ -306,6 +350,7 @@ pub fn run_c08(s: &mut Sink) {
         "call_sites": "top level; inside local functions at depth 1,2,3 (interpreter, JIT); after 0,1,2 earlier helper calls",
         "arguments": "each of r1..r5 over V64 with the others distinguishable",
         "dst_field": [0, 3],
+        "context": "with all four ids registered: ldabs after the call / in dead code, ldind before, mul+div+mod before, stack store + atomic add + lddw before; the id re-bound to another helper between two compilations",
         "engines": ["interp", "jit", "cranelift"],
     }));
     s.meta.insert("bound".into(), json!("one observed helper call per program (plus up to 2 earlier ones), call depth <= 3"));
@@ -333,8 +378,20 @@ pub fn run_c08(s: &mut Sink) {
                             if !thorough && dstf == 3 && (earlier > 0 || depth > 1) {
                                 continue;
                             }
-                            let c = C08Case { id, regset, depth, earlier, dstf };
-                            let rp = json!({"kind":"helper-call","eng":eng.name(),"id":id,"regset":regset,"depth":depth,"earlier":earlier,"dstf":dstf});
+                            let c = C08Case { id, regset, depth, earlier, dstf, ctx: 0, rebind: false };
+                            let rp = json!({"kind":"helper-call","eng":eng.name(),"id":id,"regset":regset,"depth":depth,"earlier":earlier,"dstf":dstf,"ctx":0,"rebind":false});
+                            s.mark(idx, &format!("{}/helper-call@depth{depth}", eng.name()), &rp);
+                            run_group(s, eng, &format!("helper-call@depth{depth}"), &rp, move |cs| c08_group(cs, eng, &c));
+                        }
+                    }
+                    // other instructions around the call, and re-binding the id between two compilations
+                    if regset == 0b1111 && REG_IDS.contains(&id) {
+                        for (ctx, rebind) in [(1u8, false), (2, false), (3, false), (4, false), (5, false), (0, true), (1, true)] {
+                            if ctx == 5 && depth > 1 {
+                                continue; // frames of 256 bytes: below depth 1 there is no stack left to store in
+                            }
+                            let c = C08Case { id, regset, depth, earlier: 0, dstf: 0, ctx, rebind };
+                            let rp = json!({"kind":"helper-call","eng":eng.name(),"id":id,"regset":regset,"depth":depth,"earlier":0,"dstf":0,"ctx":ctx,"rebind":rebind});
                             s.mark(idx, &format!("{}/helper-call@depth{depth}", eng.name()), &rp);
                             run_group(s, eng, &format!("helper-call@depth{depth}"), &rp, move |cs| c08_group(cs, eng, &c));
                         }
@@ -348,7 +405,7 @@ pub fn run_c08(s: &mut Sink) {
 
 pub fn replay_c08(v: &Value) -> Vec<String> {
     let eng = Eng::parse(v["eng"].as_str().unwrap());
-    let c = C08Case { id: v["id"].as_u64().unwrap() as u32, regset: v["regset"].as_u64().unwrap() as u8, depth: v["depth"].as_u64().unwrap() as u8, earlier: v["earlier"].as_u64().unwrap() as u8, dstf: v["dstf"].as_u64().unwrap() as u8 };
+    let c = C08Case { id: v["id"].as_u64().unwrap() as u32, regset: v["regset"].as_u64().unwrap() as u8, depth: v["depth"].as_u64().unwrap() as u8, earlier: v["earlier"].as_u64().unwrap() as u8, dstf: v["dstf"].as_u64().unwrap() as u8, ctx: v["ctx"].as_u64().unwrap_or(0) as u8, rebind: v["rebind"].as_bool().unwrap_or(false) };
     let mut s = Sink::new("replay", Tier::Quick, 0, 1, None, None, 3600);
     let rp = v.clone();
     run_group(&mut s, eng, "helper-call", &rp, move |cs| c08_group(cs, eng, &c));
@@ -407,7 +464,9 @@ pub struct C07Case {
     pub ld_before_call: bool,
     /// the VM is created with another program, the calculator is registered, and only then the
     /// program under test is loaded with set_program
-    pub reload: bool,
+    /// 0: program given to new(); 1: another program first, then the calculator, then set_program;
+    /// 2: new(None), then the calculator, then set_program
+    pub reload: u8,
 }
 
 pub fn c07_program(c: &C07Case) -> Vec<I> {
@@ -596,7 +655,7 @@ fn c07_check(s: &mut Sink, eng: Eng, c: &C07Case) {
         return;
     }
     let other = isa::enc(&[isa::mov64i(0, 0), isa::EXIT]);
-    let mut vmx = match AnyVm::new(kind, Some(if c.reload { &other } else { &bytes })) {
+    let mut vmx = match AnyVm::new(kind, match c.reload { 0 => Some(&bytes[..]), 1 => Some(&other[..]), _ => None }) {
         Ok(v) => v,
         Err(e) => {
             s.violation(&format!("verifier/{class}/rejects-template"), e, rp.clone());
@@ -617,7 +676,7 @@ fn c07_check(s: &mut Sink, eng: Eng, c: &C07Case) {
             }
         }
     }
-    if c.reload {
+    if c.reload != 0 {
         if let Err(e) = vmx.set_program(&bytes, (0, 0)) {
             s.violation(&format!("verifier/{class}/rejects-template"), e, rp.clone());
             return;
@@ -686,16 +745,17 @@ fn c07_cases(thorough: bool) -> Vec<C07Case> {
                 for calc in &calcs {
                     let vs: Vec<u8> = if thorough { (0..31).collect() } else { vec![1, 22, 28] };
                     for vsel in vs {
-                        v.push(C07Case { depth, reversed, body, calc: *calc, recursive: false, vsel, twice: false, ld_before_call: false, reload: false });
+                        v.push(C07Case { depth, reversed, body, calc: *calc, recursive: false, vsel, twice: false, ld_before_call: false, reload: 0 });
                         if depth >= 1 && depth <= 4 && (thorough || vsel == 1) {
-                            v.push(C07Case { depth, reversed, body, calc: *calc, recursive: false, vsel, twice: true, ld_before_call: false, reload: false });
+                            v.push(C07Case { depth, reversed, body, calc: *calc, recursive: false, vsel, twice: true, ld_before_call: false, reload: 0 });
                         }
                         if depth >= 1 && (thorough || vsel == 1) {
                             // loaded with set_program after the calculator was registered
-                            v.push(C07Case { depth, reversed, body, calc: *calc, recursive: false, vsel, twice: false, ld_before_call: false, reload: true });
+                            v.push(C07Case { depth, reversed, body, calc: *calc, recursive: false, vsel, twice: false, ld_before_call: false, reload: 1 });
+                            v.push(C07Case { depth, reversed, body, calc: *calc, recursive: false, vsel, twice: false, ld_before_call: false, reload: 2 });
                             // a packet load right before every call (bodies that leave r9 free)
                             if body & 9 == 0 {
-                                v.push(C07Case { depth, reversed, body, calc: *calc, recursive: false, vsel, twice: depth <= 3, ld_before_call: true, reload: false });
+                                v.push(C07Case { depth, reversed, body, calc: *calc, recursive: false, vsel, twice: depth <= 3, ld_before_call: true, reload: 0 });
                             }
                         }
                     }
@@ -704,7 +764,7 @@ fn c07_cases(thorough: bool) -> Vec<C07Case> {
         }
         for body in 0..4u8 {
             for calc in &calcs {
-                v.push(C07Case { depth, reversed: true, body, calc: *calc, recursive: true, vsel: 5, twice: false, ld_before_call: false, reload: false });
+                v.push(C07Case { depth, reversed: true, body, calc: *calc, recursive: true, vsel: 5, twice: false, ld_before_call: false, reload: 0 });
             }
         }
     }
@@ -718,7 +778,7 @@ pub fn run_c07(s: &mut Sink) {
         "call_graphs": "chains main -> f1 -> ... -> fd for d = 0..9 laid out forward or backward (negative displacements); binary call trees (every function calls its callee twice) of depth 1..4; self-recursion bounded by a counter in r1 for depth 0..9",
         "bodies": "16 combinations of {set r6-r9 in every function, stack tag at [r10-8] written and read back after the call, lowest slot of the frame touched, helper call inside every function}",
         "calculators": if thorough {"none, const 0, 8, 64, 256, 512, 65535, pc-dependent 16+8*pc, program-dependent 16+8*((len+pc)%32)"} else {"none, const 0, 64, 512, pc-dependent, program-dependent"},
-        "variants": "program loaded with set_program after another program and the calculator (reload); a packet load (ldabsb) immediately before every call, on a raw VM",
+        "variants": "program loaded with set_program after another program and the calculator, or after new(None) and the calculator (reload 1, 2); a packet load (ldabsb) immediately before every call, on a raw VM",
         "register_contents": if thorough {"all 31 V64 values"} else {"3 V64 values"},
         "engines": ["interp (vs reference machine)", "jit (vs interpreter where defined)"],
     }));
@@ -756,7 +816,7 @@ pub fn replay_c07(v: &Value) -> Vec<String> {
         Value::String(_) => Calc::PcDep,
         x => Calc::Const(x.as_u64().unwrap() as u16),
     };
-    let c = C07Case { depth: v["depth"].as_u64().unwrap() as u8, reversed: v["reversed"].as_bool().unwrap(), body: v["body"].as_u64().unwrap() as u8, calc, recursive: v["recursive"].as_bool().unwrap(), vsel: v["vsel"].as_u64().unwrap() as u8, twice: v["twice"].as_bool().unwrap_or(false), ld_before_call: v["ld_before_call"].as_bool().unwrap_or(false), reload: v["reload"].as_bool().unwrap_or(false) };
+    let c = C07Case { depth: v["depth"].as_u64().unwrap() as u8, reversed: v["reversed"].as_bool().unwrap(), body: v["body"].as_u64().unwrap() as u8, calc, recursive: v["recursive"].as_bool().unwrap(), vsel: v["vsel"].as_u64().unwrap() as u8, twice: v["twice"].as_bool().unwrap_or(false), ld_before_call: v["ld_before_call"].as_bool().unwrap_or(false), reload: v["reload"].as_u64().unwrap_or(if v["reload"].as_bool().unwrap_or(false) { 1 } else { 0 }) as u8 };
     let mut s = Sink::new("replay", Tier::Quick, 0, 1, None, None, 3600);
     let rp = v.clone();
     run_group(&mut s, eng, "local-call", &rp, move |cs| c07_check(cs, eng, &c));
